@@ -24,7 +24,7 @@ CHUNK = 40
 SELFTEST = {'quick': 14, 'thorough': 200}
 REQUIRED_PROBES = ['hash_salted_names', 'hashseed_interpreters', 'plot_only_rank', 'setupSave_bcast', 'setupSave_root_nonzero', 'drawing_rank_nonzero', 'minmax_on_swapper_grid', 'kind_driver', 'kind_split', 'split_restart_without_checkpoint', 'arrival_order_P3_']
 RULE = ("Every check: in 12% of the cases one or two bystander ranks share the simulated job and the code under test runs on world.Split(...); one case in HASHSEED_EVERY is re-run in fresh interpreters under other string-hash seeds and every rank's trace (collectives, data sent, result) must agree. "
-        "Also: kind split (4%) = two simulations on the halves of a split (optionally Dup'ed) world; richer swapper groupings (route ties) in 40% of the swapper layout cases; complex minmax data that is exactly real on part of the domain (40%). "
+        "Also: kind split (4%) = two simulations on the halves of a split (optionally Dup'ed) world; richer swapper groupings (route ties) in 40% of the swapper layout cases; complex minmax data that is exactly real on part of the domain (40%); plot gathers on a communicator with the ranks in reverse order (25%). "
         'case kinds (swarm-weighted): layout = LayoutHandler/LayoutSwapper construction + all-pairs '
         'transposes with layout names whose hash is salted per rank, under a systematic sweep of all '
         'P! consistent arrival orders for P <= 3 (quick) / 4 (thorough) and straggler/eager/bursty '
